@@ -19,7 +19,7 @@ func (v *Vue) evalVHtml(ctx VueContext, n *html.Node) error {
 	if !ok {
 		// v-html may be a function call like "file(src)"
 		var err error
-		if strings.Contains(expr, "|") || helpers.IsFunctionCall(expr) || helpers.IsComplexExpr(expr) {
+		if strings.Contains(expr, "|") || helpers.IsFunctionCall(expr) || helpers.IsComplexExpr(expr) || !helpers.IsVariablePath(expr) {
 			pipe := parsePipeExpr(expr)
 			val, err = v.evalPipe(ctx, pipe)
 			if err != nil {
